@@ -94,7 +94,8 @@ def main(tier):
                     ob(ok, "R2:accepts:%s" % root,
                        {"rule": "R2 every context of 0..255 bytes passes the guard", "entry": j["root"], "set": s, "abstract_result": j["partitions"], "entered": worker})
                     # R3: the length byte at the mu site
-                    xofs = [p for p in j["probes"] if p["what"] == "xof" and (p["ctx"].startswith("ml_dsa::sign_internal") or p["ctx"].startswith("ml_dsa::verify_internal"))]
+                    # every hash instance of the run is a candidate (wherever in the call tree mu is computed)
+                    xofs = [p for p in j["probes"] if p["what"] == "xof"]
                     mu = [p for p in xofs if "len(ctx)" in p["data"]["absorbed"] or re.search(r"in\.ctx", p["data"]["absorbed"])]
                     if root.startswith("internal"):
                         # the deprecated internal interface hashes tr || M' only: ctx is not absorbed (documented)
